@@ -185,10 +185,36 @@ def main():
                             "stage program in spec/Pipeline.tla (harness policy %s-first): %s" % (kind, q["par"], q["lens"], pol,
                                                                        " ".join(e["e"] + str(e.get("k", "")) + (":%d" % e["v"] if e["e"] in ("in", "out") else "") for e in rr["events"])[:400]),
                             {"probe": q, "events": rr["events"], "wiring": json.loads(wj)})
+    # binding self-test: recorded traces with one delivered value altered, and with the last two events exchanged, must be rejected
+    import copy
+    rejected_corrupt = 0
+    picks = [(item, m) for item in groups.items() for m in item[1]
+             if item[0][0] in ("Operate", "Map", "Shift", "Skip") and sum(m[0]["lens"]) >= 2 and any(e["e"] == "out" for e in m[1]["events"])][:4]
+    for (key, _), (q, rr) in picks:
+        variants = []
+        ev = copy.deepcopy(rr["events"])
+        oi = [i for i, e in enumerate(ev) if e["e"] == "out"]
+        ev[oi[0]]["v"] = ev[oi[0]].get("v", 0) + 7
+        variants.append(ev)
+        ev2 = copy.deepcopy(rr["events"])
+        if len(ev2) >= 3 and ev2[-2]["e"] != ev2[-3]["e"]:
+            ev2[-2], ev2[-3] = ev2[-3], ev2[-2]
+            variants.append(ev2)
+        for v in variants:
+            _, res, err = validate((key, [(q, {"events": v})]))
+            if err:
+                machinery.append("self-test of the trace validation: %s" % err)
+            elif any(tag == "ACC" for tag, o in res.prints):
+                # exchanging two events may yield another legal order; an altered value never does
+                if v is variants[0]:
+                    raise vlib.Machinery("PipelineTrace accepts a probe trace with an altered value: the trace specification binds nothing")
+            else:
+                rejected_corrupt += 1
     rc = V.finish()
     for m in machinery[:30]:
         print("MACHINERY: " + m)
     vlib.write_evidence(PID, "model_checking", {
+        "corrupted_probe_traces_rejected": rejected_corrupt,
         "states": states, "transitions": trans, "traces_validated_against_impl": ntraces + ncases,
         "samples": samples or [{"note": "none"}], "evaluations": ncases + ntraces,
         "distinct_nontrivial": len([c for c in cases if c.get("ins") and any(len(x) > 0 for x in c["ins"])]) + accepted,
